@@ -81,21 +81,21 @@ public:
         if (layout == RowMajor)
             return;
         else
-            *this = tocolumnmajor(*this);
+            *this = torowmajor(*this);
     }
     FASTOR_INLINE Tensor(const std::array<T,pack_prod<Rest...>::value> &arr, int layout=RowMajor) {
         std::copy(arr.data(),arr.data()+pack_prod<Rest...>::value,_data);
         if (layout == RowMajor)
             return;
         else
-            *this = tocolumnmajor(*this);
+            *this = torowmajor(*this);
     }
     FASTOR_INLINE Tensor(const std::vector<T> &arr, int layout=RowMajor) {
         std::copy(arr.data(),arr.data()+pack_prod<Rest...>::value,_data);
         if (layout == RowMajor)
             return;
         else
-            *this = tocolumnmajor(*this);
+            *this = torowmajor(*this);
     }
     //----------------------------------------------------------------------------------------------------------//
 
